@@ -262,6 +262,25 @@ CLAIMED = {
              "outside the quantifier. Spellings other encoders may write are not generated.",
         technique="TLA+ reader of the JSON policy format and AST comparison form as the judge; TLC-enumerated ASTs encoded and decoded by "
                   "the Go code; TLC trace validation of every recorded round trip (document read by the specification) and of random policies"),
+    "C13": dict(
+        category="model_checking",
+        text="spec/ValueJson.tla reads the JSON form of values, entities, entity maps and requests itself (documents reach TLC in a "
+             "tagged form: strings as code points, integers as limb numbers, object members in document order): booleans, 64-bit "
+             "integers, strings, arrays = sets, objects = records, the escapes __entity and __extn (argument read by the literal "
+             "syntaxes of TextForms), entity references in either spelling where the format allows both. Trace_ValueJson validates "
+             "recorded round trips of values nested to depth 3 (64-bit boundaries, every extension type at its boundaries, strings / "
+             "keys / ids over the Unicode classes and JSON's escaped characters, records that look like implicit forms or carry the "
+             "escape words), entities with 0-3 parents / attributes / tags, entity maps of 0-5 entities and requests: the "
+             "specification's reading of the RECORDED encoding is the datum, the real decoder returns the datum, the decoder's "
+             "re-encoding repeats the bytes, and every alternative spelling (entity references flipped explicit <-> implicit; bare "
+             "string, {fn,arg} and __extn for typed extension decoders; both EntityUID spellings) is the same datum for the "
+             "specification and for the real decoder.",
+        design_ref="DESIGN.md 4 C13",
+        note=TRUSTED + "Inputs are seeded random and boundary data, not an exhaustive universe. The decoder's fallback for malformed "
+             "escape payloads is followed by the specification (named deviation). Schema-guided coercion and Decision / Diagnostic "
+             "are not covered here.",
+        technique="TLA+ reader of the value / entity JSON format as the judge; TLC trace validation of recorded encode / decode / "
+                  "re-encode round trips and alternative spellings"),
 }
 
 HOOK_COMMITS = ["82e75f7fe48a39cfaaa51c07619f57b1dcd3cfd5"]   # /repo: x/exp/verifhook/verifhook.go (//go:build verif), re-exports the policy tokenizer (C18)
